@@ -469,8 +469,12 @@ func wfMakers() []extMaker {
 			return &tls.GenericExtension{Id: unknownIDs[r.Intn(len(unknownIDs))], Data: rb(r, sz(r, 0, 300))}
 		}},
 		{"ems", func(r *rand.Rand, cu *custom) tls.TLSExtension { return &tls.ExtendedMasterSecretExtension{} }},
-		{"grease1", func(r *rand.Rand, cu *custom) tls.TLSExtension { return &tls.UtlsGREASEExtension{} }},
-		{"grease2", func(r *rand.Rand, cu *custom) tls.TLSExtension { return &tls.UtlsGREASEExtension{} }},
+		{"grease1", func(r *rand.Rand, cu *custom) tls.TLSExtension {
+			return &tls.UtlsGREASEExtension{Value: greaseValues()[r.Intn(18)]}
+		}},
+		{"grease2", func(r *rand.Rand, cu *custom) tls.TLSExtension {
+			return &tls.UtlsGREASEExtension{Value: greaseValues()[r.Intn(18)]}
+		}},
 		{"padding", func(r *rand.Rand, cu *custom) tls.TLSExtension {
 			e := &tls.UtlsPaddingExtension{}
 			switch r.Intn(4) {
@@ -597,8 +601,8 @@ func baseSuites(r *rand.Rand) []uint16 {
 
 func customCfg(r *rand.Rand, seed int64) *tls.Config {
 	snis := []string{"example.com", "", "10.0.0.1", "a.b.", "x", longName(253), "fe80::1%eth0"}
-	return &tls.Config{ServerName: snis[r.Intn(len(snis))], InsecureSkipVerify: true, OmitEmptyPsk: true,
-		Rand: seedReader{rand.New(rand.NewSource(seed))}}
+	rd, _ := controlledRand(r)
+	return &tls.Config{ServerName: snis[r.Intn(len(snis))], InsecureSkipVerify: true, OmitEmptyPsk: true, Rand: rd}
 }
 
 // genWF: a spec inside the precondition: random subset of the extension types, each at most once,
@@ -884,4 +888,6 @@ func run(c *vh.Ctx) {
 	runFingerprinted(c, raws)
 	runJSON(c)
 	runQUIC(c)
+	runGrease(c)
+	runHRR(c, raws)
 }
